@@ -97,16 +97,39 @@ package vm
 //@   modifies map:map[string]*vm.StorageKey, map:map[uint256.Int]map[uint8]*vm.StorageKey, map:map[uint8]*vm.StorageKey
 //@ end
 
-//@ func (*vm.StorageKey).Children
+// C16 / C11: list-valued views of a key's children. sortedChildIndices returns every index key of the childrenIndex
+// map exactly once (as many entries as the map has, each one a key of the map, pairwise distinct) in strictly
+// ascending order - i.e. THE sorted enumeration of the key set, whatever order the map iteration used. Children and
+// ChildrenIndices map that list position by position.
+//@ func (*vm.StorageKey).sortedChildIndices(k) (out)
 //@   verify
 //@   safety [C03]
 //@   requires recv: k != nil
+//@   loop 0 invariant counted [C11 C16]: uint64(len(indices)) == rangecount(0) && cap(indices) == len(k.childrenIndex)
+//@   loop 0 invariant members [C11 C16]: forall j uint64 :: j < uint64(len(indices)) ==> has(k.childrenIndex, indices[j]) && rangeseen(0, indices[j])
+//@   loop 0 invariant distinct [C11 C16]: forall i uint64, j uint64 :: i < j && j < uint64(len(indices)) ==> indices[i] != indices[j]
+//@   ensures every-key-once [C11 C16]: len(out) == len(k.childrenIndex) && (forall j uint64 :: j < uint64(len(out)) ==> has(k.childrenIndex, out[j]))
+//@   ensures ascending [C11 C16]: forall i uint64, j uint64 :: i <= j && j < uint64(len(out)) ==> strle(out[i], out[j])
+//@   ensures pairwise-distinct [C11 C16]: forall i uint64, j uint64 :: i < j && j < uint64(len(out)) ==> out[i] != out[j]
+//@   modifies cell:string
 //@ end
 
-//@ func (*vm.StorageKey).ChildrenIndices
+//@ func (*vm.StorageKey).Children(k) (out)
 //@   verify
 //@   safety [C03]
 //@   requires recv: k != nil
+//@   loop 0 invariant mapped [C11 C16]: len(res) == rangeindex + 1 && rangeindex + 1 <= len(indices) && (forall j uint64 :: j < uint64(len(res)) ==> res[j] == k.childrenIndex[indices[j]])
+//@   ensures one-per-index-key [C11 C16]: len(out) == len(k.childrenIndex) && (forall j uint64 :: j < uint64(len(out)) ==> out[j] == k.childrenIndex[indices[j]])
+//@   ensures in-index-order [C11 C16]: forall j uint64 :: j < uint64(len(out)) && j + 1 < uint64(len(out)) ==> strle(indices[j], indices[j+1]) && indices[j] != indices[j+1]
+//@ end
+
+//@ func (*vm.StorageKey).ChildrenIndices(k) (out)
+//@   verify
+//@   safety [C03]
+//@   requires recv: k != nil
+//@   loop 0 invariant mapped [C11 C16]: len(res) == rangeindex + 1 && rangeindex + 1 <= len(indices) && cap(res) == len(indices) && (forall j uint64 :: j < uint64(len(res)) ==> allocated(res[j]) && strof(res[j]) == indices[j])
+//@   ensures one-per-index-key [C11 C16]: len(out) == len(k.childrenIndex) && (forall j uint64 :: j < uint64(len(out)) ==> has(k.childrenIndex, indices[j]) && strof(out[j]) == indices[j])
+//@   ensures in-index-order [C11 C16]: forall j uint64 :: j < uint64(len(out)) && j + 1 < uint64(len(out)) ==> strle(indices[j], indices[j+1]) && indices[j] != indices[j+1]
 //@ end
 
 //@ func (*vm.StateChanges).saveBalance(s, account, newBalance, callIdx)
@@ -121,10 +144,13 @@ package vm
 //@   modifies cell:[]byte, map:map[uint64][][]byte, vm.StorageKey.changes, vm.StorageKey.nodeType, map:map[common.Address]*vm.StorageKey
 //@ end
 
-//@ func (*vm.StateChanges).saveRawStateChange
+//@ func (*vm.StateChanges).saveRawStateChange(s, account, slot, callIdx, val)
 //@   verify
 //@   safety [C03]
 //@   requires recv: s != nil
+//@   ensures recorded-under-call [C10]: has(s.raw, account) && has(s.raw[account], slot) && has(s.raw[account][slot], callIdx) && s.raw[account][slot][callIdx] == val
+//@   ensures other-calls-kept [C10]: old(s.raw[account][slot]) != nil ==> s.raw[account][slot] == old(s.raw[account][slot]) && (forall k uint64 :: k != callIdx ==> s.raw[account][slot][k] == old(s.raw[account][slot][k]))
+//@   ensures other-slots-kept [C10]: old(s.raw[account]) != nil ==> s.raw[account] == old(s.raw[account]) && (forall w u256 :: w != slot ==> s.raw[account][w] == old(s.raw[account][w]))
 //@   modifies map:map[common.Address]map[uint256.Int]map[uint64]common.Hash, map:map[uint256.Int]map[uint64]common.Hash, map:map[uint64]common.Hash
 //@ end
 
@@ -188,10 +214,12 @@ package vm
 //@   modifies cell:[]byte, map:map[uint64][][]byte, vm.StorageKey.changes, vm.StorageKey.nodeType
 //@ end
 
-//@ func (*vm.StateChanges).Balance
+// C13: the balance view of an account is the change list kept on the account's root key.
+//@ func (*vm.StateChanges).Balance(s, account) (out)
 //@   verify
 //@   safety [C03]
 //@   requires recv: s != nil
+//@   ensures balance-list-of-root [C13 C10]: (has(s.roots, account) ==> out == s.roots[account].changes) && (!has(s.roots, account) ==> out == nil)
 //@   modifies nothing
 //@ end
 
@@ -213,36 +241,68 @@ package vm
 //@   modifies nothing
 //@ end
 
-//@ func (*vm.StateChanges).Variable
+// by-name view: the change list of the key FindKeyIndices resolves (stated for paths of length 0 and 1, as there)
+//@ func (*vm.StateChanges).Variable(s, account, stateVarName, indices) (out)
 //@   verify
 //@   safety [C03]
 //@   requires recv: s != nil
+//@   let first = s.roots[account].childrenIndex[stateVarName]
+//@   let second = first.childrenIndex[strof(indices[0])]
+//@   ensures unknown-is-nil [C11]: s.roots[account] == nil || first == nil ==> out == nil
+//@   ensures changes-of-named-key [C11]: s.roots[account] != nil && first != nil && len(indices) == 0 ==> out == first.changes
+//@   ensures changes-of-indexed-key [C11]: s.roots[account] != nil && first != nil && len(indices) == 1 ==> (second == nil ==> out == nil) && (second != nil ==> out == second.changes)
 //@   modifies nothing
 //@ end
 
-//@ func (*vm.StateChanges).Slot
+// by-slot view: exactly the (account, slot, offset, typeId) entry of the flat index; malformed offsets are refused
+//@ func (*vm.StateChanges).Slot(s, account, slot, offset, typeId) (out, err)
 //@   verify
 //@   safety [C03]
 //@   requires recv: s != nil
+//@   let off8 = ite(offset == nil, uint8(0), uint8(uint64(*offset)))
+//@   let hit = s.index[account][*slot][off8][typeId]
+//@   ensures nil-slot-refused [C11]: slot == nil ==> out == nil && err != nil
+//@   ensures malformed-offset-refused [C11 C12]: slot != nil && offset != nil && *offset > 31 ==> out == nil && err != nil
+//@   ensures changes-of-indexed-entry [C11]: slot != nil && (offset == nil || *offset <= 31) ==> err == nil && (hit == nil ==> out == nil) && (hit != nil ==> out == hit.changes)
 //@   modifies nothing
 //@ end
 
-//@ func (*vm.StateChanges).IndicesOfChanges
+//@ func (*vm.StateChanges).IndicesOfChanges(s, account, stateVarName, indices) (out)
 //@   verify
 //@   safety [C03]
 //@   requires recv: s != nil
+//@   ghost listed u64 = 0
+//@   ghost of ptr = nil
+//@   oncall (*vm.StorageKey).ChildrenIndices : listed = listed + 1 ; of = $0
+//@   let first = s.roots[account].childrenIndex[stateVarName]
+//@   ensures unknown-is-nil [C11]: s.roots[account] == nil || first == nil ==> out == nil && listed == 0
+//@   ensures lists-the-named-key [C11 C16]: s.roots[account] != nil && first != nil && len(indices) == 0 ==> listed == 1 && of == first
+//@   ensures lists-the-indexed-key [C11 C16]: s.roots[account] != nil && first != nil && len(indices) == 1 && first.childrenIndex[strof(indices[0])] != nil ==> listed == 1 && of == first.childrenIndex[strof(indices[0])]
 //@ end
 
-//@ func (*vm.Call).ChildrenIndices
+// C07 views: the index list mirrors Children position by position
+//@ func (*vm.Call).ChildrenIndices(c) (out)
 //@   verify
 //@   safety [C03]
 //@   requires recv: c != nil
+//@   requires children-nonnil: forall k uint64 :: k < uint64(len(c.Children)) ==> c.Children[k] != nil
+//@   loop 0 invariant filled [C07]: len(indices) == len(c.Children) && (forall j uint64 :: int(j) <= rangeindex && j < uint64(len(c.Children)) ==> indices[j] == c.Children[j].Index)
+//@   ensures mirrors-children [C07]: len(out) == len(c.Children) && (forall j uint64 :: j < uint64(len(c.Children)) ==> out[j] == c.Children[j].Index)
 //@ end
 
-//@ func (*vm.Call).ParentIndex
+//@ func (*vm.Call).ParentIndex(c) (out)
 //@   verify
 //@   safety [C03]
 //@   requires recv: c != nil
+//@   ensures root-is-minus-one [C07]: (c.Parent == nil ==> out == -1) && (c.Parent != nil ==> out == int64(c.Parent.Index))
+//@   modifies nothing
+//@ end
+
+//@ func (*vm.Call).IsRoot(c) (out)
+//@   verify
+//@   safety [C03]
+//@   requires recv: c != nil
+//@   ensures root-has-no-parent [C07]: out == (c.Parent == nil)
 //@   modifies nothing
 //@ end
 
@@ -275,6 +335,8 @@ package vm
 //@   ensures count [C07]: c.count == old(c.count) + 1
 //@   ensures pushed [C03 C07 C08 C10]: c.current != nil && fresh(c.current) && c.current == c.lookup[old(c.count)] && c.current.Index == old(c.count) && c.current.Parent == old(c.current)
 //@   ensures recorded [C08]: c.current.From == from && c.current.To == to && sameslice(c.current.Data, data) && c.current.Value == value && c.current.Gas == gas && c.current.Ret == nil && c.current.Err == nil && len(c.current.Children) == 0
+//@   ensures earlier-children-kept [C07 C08]: old(c.current) != nil ==> (forall k uint64 :: k < uint64(old(len(c.current.Children))) ==> old(c.current).Children[k] == old(c.current.Children[k]))
+//@   ensures other-nodes-children-headers-kept [C07]: forall i uint64 :: i < old(c.count) && c.lookup[i] != old(c.current) ==> sameslice(c.lookup[i].Children, old(c.lookup[i].Children))
 //@   ensures appended [C07 C08]: old(c.current) != nil ==> len(old(c.current).Children) == old(len(c.current.Children)) + 1 && old(c.current).Children[old(len(c.current.Children))] == c.current
 //@   modifies vm.CallTree.root, vm.CallTree.current, vm.CallTree.count, map:map[uint64]*vm.Call, vm.Call.Children, cell:*vm.Call
 //@ end
@@ -293,24 +355,36 @@ package vm
 //@   modifies vm.CallTree.current, vm.Call.RemainingGas, vm.Call.Ret, vm.Call.Err
 //@ end
 
-//@ func (*vm.CallTree).ParentOf
+// C07 views: the three index queries answer from the lookup table and from nothing else
+//@ func (*vm.CallTree).ParentOf(c, index) (out)
 //@   verify
 //@   safety [C03]
 //@   requires recv: c != nil
+//@   ensures parent-of-indexed-node [C07]: (c.lookup[index] == nil ==> out == nil) && (c.lookup[index] != nil ==> out == c.lookup[index].Parent)
 //@   modifies nothing
 //@ end
 
-//@ func (*vm.CallTree).FindCall
+//@ func (*vm.CallTree).FindCall(c, index) (out)
 //@   verify
 //@   safety [C03]
 //@   requires recv: c != nil
+//@   ensures indexed-node [C07]: out == c.lookup[index]
 //@   modifies nothing
 //@ end
 
-//@ func (*vm.CallTree).ChildrenOf
+//@ func (*vm.CallTree).ChildrenOf(c, index) (out)
 //@   verify
 //@   safety [C03]
 //@   requires recv: c != nil
+//@   ensures children-of-indexed-node [C07]: (c.lookup[index] == nil ==> out == nil) && (c.lookup[index] != nil ==> sameslice(out, c.lookup[index].Children))
+//@   modifies nothing
+//@ end
+
+//@ func (*vm.CallTree).Root(c) (out)
+//@   verify
+//@   safety [C03]
+//@   requires recv: c != nil
+//@   ensures is-root [C07]: out == c.root
 //@   modifies nothing
 //@ end
 
@@ -364,19 +438,26 @@ package vm
 //@   modifies map:map[common.Address]map[uint256.Int]map[uint64]common.Hash, map:map[uint256.Int]map[uint64]common.Hash, map:map[uint64]common.Hash
 //@ end
 
-//@ func vm.NewTracer
+// Base cases: a new tracer starts with an empty, well-formed call tree and empty journals (C07's invariant holds
+// initially; C10/C11 views of a new tracer are empty).
+//@ func vm.NewTracer() (out)
 //@   verify
 //@   safety [C03]
+//@   ensures fresh-parts [C07 C10 C17]: out != nil && fresh(out) && out.states != nil && fresh(out.states) && out.callTree != nil && fresh(out.callTree)
+//@   ensures starts-empty [C07]: out.callTree.count == 0 && out.callTree.root == nil && out.callTree.current == nil && (forall i uint64 :: !has(out.callTree.lookup, i))
 //@ end
 
-//@ func vm.NewStateChanges
+//@ func vm.NewStateChanges() (out)
 //@   verify
 //@   safety [C03]
+//@   ensures starts-empty [C10 C11 C17]: out != nil && fresh(out) && out.roots != nil && fresh(out.roots) && out.index != nil && fresh(out.index) && out.raw != nil && fresh(out.raw) && (forall a addr :: !has(out.roots, a) && !has(out.index, a) && !has(out.raw, a))
 //@ end
 
-//@ func vm.NewCallTree
+//@ func vm.NewCallTree() (out)
 //@   verify
 //@   safety [C03]
+//@   ensures starts-empty [C07 C17]: out != nil && fresh(out) && out.count == 0 && out.root == nil && out.current == nil && out.lookup != nil && fresh(out.lookup) && (forall i uint64 :: !has(out.lookup, i))
+//@   ensures starts-well-formed [C07]: wfIndex(out) && wfDense(out) && wfParent(out) && wfCursor(out)
 //@ end
 
 //@ func vm.NewRootKey
